@@ -61,7 +61,7 @@ def main(rep):
         cases.append(("w%d" % i, wc.gen_world_case(rng, dump_around=True), {}))
     # quick: every crash point and every single fault of the passes that run into a taken name (and of a plain
     # pass); thorough: of every scenario family
-    only = ["drain_collision", "snapshot_collision", "drain_one", "drain_directory"] if rep.tier == "quick" else None
+    only = ["drain_collision", "drain_history_collision", "snapshot_collision", "drain_one", "drain_directory"] if rep.tier == "quick" else None
     wk.standard_main(rep, cases=cases, monitors=MON, crash=True, fault=True, only=only,
                      crash_monitors=["store_immutable"], fault_monitors=["store_immutable", "fault_reported"],
                      rule=("up to 12 versions of one file inside one version timestamp, with 0-4 of the wanted names (base, -1 .. -5) already taken by "
